@@ -423,18 +423,18 @@ Qed.
    Proved: for every history of the alphabet `peer_op_ok` —
      constructor calls (any keywords except UNCHANGED; a positional key must be a scalar),
      every helper called copy-on-write (_inplace=False) with scalar arguments and scalar callbacks,
-     deepcopy, argument objects of scalars built by the caller, and the in-place scalar assignment
-     `obj.a = <scalar>` on an instance created by a constructor call of the history, for an attribute
-     nothing is invalidated by —
+     deepcopy, argument objects of scalars built by the caller, and in place, on an instance created
+     by a constructor call of the history and for an attribute nothing is invalidated by:
+     `obj.a = <scalar>`, `del obj.a`, `obj.with_<a>(<scalar>, _inplace=True)`, `obj.reset_<a>(_inplace=True)` —
    the instances returned by the constructor calls of the history sit at pairwise different cells,
    each is a live cell, and no cell is reachable from two of them (invariant PD, preserved by every
    step: SepMore3.peer_step).  Tables: no do_not_copy=True classes, no do_not_copy attributes,
    scalar_table, tgb.
    Proviso (what keeps this partial): every heap an operation of the history starts from is free of
    dangling references (`run_wf`; decidable: `run_wfb`, lemma run_wfb_ok).  Still missing beyond that:
-   a proof that the library never stores a reference to a cell that does not exist; in-place
-   del / reset / with_<attr> / element helpers and attributes with dependants in the alphabet;
-   instances obtained as copies; do_not_copy attributes. *)
+   (discharged below for scalar arguments); in-place reset() / update_ / transform_ / element helpers
+   and attributes with dependants in the alphabet; instances obtained as copies; do_not_copy
+   attributes. *)
 Theorem C08_peers_disjoint_history_if_no_dangling :
   forall ct, no_dnc_classes ct -> scalar_table ct -> tgb ct = true -> no_dnc_attrs ct ->
   forall ops s roots,
@@ -475,8 +475,9 @@ Qed.
 
 (* C08_peers_disjoint over histories, without the proviso; PARTIAL only in its alphabet:
    constructor calls with scalar keywords, every helper called copy-on-write with scalar
-   arguments, deepcopy, argument objects of scalars, in-place scalar assignment on a
-   constructor-created instance (attribute without dependants). *)
+   arguments, deepcopy, argument objects of scalars, and in place on a constructor-created instance
+   (attribute without dependants): obj.a = <scalar>, del obj.a, with_<a>(<scalar>, _inplace=True),
+   reset_<a>(_inplace=True). *)
 Theorem C08_peers_disjoint_history_partial :
   forall ct, no_dnc_classes ct -> scalar_table ct -> tgb ct = true -> no_dnc_attrs ct ->
   forall n0, (forall c k a, lookup_cls ct c = Some k -> vb n0 (class_default k a)) ->
@@ -536,6 +537,18 @@ Example C08_peers_disjoint_nonvacuous :
               OList [VInt 1; VInt 5]; OInst 2 [(50, VRef 7); (51, VInt 3)]; OList [VInt 1]]).
 Proof. exact peers_disjoint_nonvacuous. Qed.
 
+(* non-vacuity of the in-place part of the alphabet: the history above followed by
+   del p.xs; p.with_n(4, _inplace=True); q.reset_x(_inplace=True) *)
+Example C08_peers_disjoint_inplace_nonvacuous :
+  ops_ok exp_ct 1 [] exp_ops2 /\
+  run_wfb exp_ct (mkst [OList [VInt 1]] 0 None) [VRef 0] exp_ops2 = true /\
+  (let '(s', roots') := run_ops exp_ct (mkst [OList [VInt 1]] 0 None) [VRef 0] exp_ops2 in
+   roots' = [VRef 0; VRef 1; VRef 3; VNone; VRef 5; VRef 8; VNone; VRef 1; VRef 3] /\
+   nth_error (heap s') 1 = Some (OInst 2 [(50, VRef 10); (51, VInt 4)]) /\
+   nth_error (heap s') 3 = Some (OInst 2 [(50, VRef 11); (51, VInt 3)]) /\
+   nth_error (heap s') 0 = Some (OList [VInt 1])).
+Proof. exact peers_disjoint_inplace_nonvacuous. Qed.
+
 Print Assumptions C08_construct_fresh.
 Print Assumptions C08_default_is_fresh.
 Print Assumptions C08_reset_keeps_defaults_isolated.
@@ -562,3 +575,4 @@ Print Assumptions C08_peers_disjoint_nonvacuous.
 Print Assumptions C08_no_dangling_reference_is_ever_stored.
 Print Assumptions C08_peers_disjoint_history_partial.
 Print Assumptions C08_peers_disjoint_partial_nonvacuous.
+Print Assumptions C08_peers_disjoint_inplace_nonvacuous.
